@@ -51,32 +51,30 @@ fn dump_run(p: &Prog, mode: &str, path: usize) {
         p.name, p.prop, mode, path, vars_j.join(","), pc_j.join(","), as_j.join(","), en_j.join(","), id_j.join(","), out_j.join(","), nodes);
 }
 
-fn dump(p: &Prog) {
-    if let Some(f) = p.run_s {
-        // depth-first enumeration of the decision scripts (binary counter over defaulted decisions)
-        reset_all();
-        let mut script: Vec<bool> = Vec::new();
-        let mut n = 0;
-        loop {
-            reset_run(script.clone());
-            f();
-            dump_run(p, "S", n);
-            n += 1;
-            if n >= MAX_PATHS { println!("{{\"prog\":\"{}\",\"error\":\"path limit {} reached\"}}", p.name, MAX_PATHS); break; }
-            let mut s: Vec<bool> = with(|a| a.trace.iter().map(|(_, o)| *o).collect());
-            while let Some(false) = s.last() { s.pop(); }
-            if s.is_empty() { break; }
-            let l = s.len();
-            s[l - 1] = false;
-            script = s;
-        }
-    }
-    if let Some(f) = p.run_v {
-        reset_all();
-        reset_run(Vec::new());
+fn enumerate(p: &Prog, f: fn(), mode: &str) {
+    // depth-first enumeration of the decision scripts (binary counter over defaulted decisions).
+    // In vector mode decisions only arise in scalar-typed parameter computations (T::Scalar has Mask = bool).
+    reset_all();
+    let mut script: Vec<bool> = Vec::new();
+    let mut n = 0;
+    loop {
+        reset_run(script.clone());
         f();
-        dump_run(p, "V", 0);
+        dump_run(p, mode, n);
+        n += 1;
+        if n >= MAX_PATHS { println!("{{\"prog\":\"{}\",\"error\":\"path limit {} reached\"}}", p.name, MAX_PATHS); break; }
+        let mut s: Vec<bool> = with(|a| a.trace.iter().map(|(_, o)| *o).collect());
+        while let Some(false) = s.last() { s.pop(); }
+        if s.is_empty() { break; }
+        let l = s.len();
+        s[l - 1] = false;
+        script = s;
     }
+}
+
+fn dump(p: &Prog) {
+    if let Some(f) = p.run_s { enumerate(p, f, "S"); }
+    if let Some(f) = p.run_v { enumerate(p, f, "V"); }
 }
 
 fn eval(p: &Prog, ty: &str, args: &[String]) {
